@@ -168,6 +168,14 @@ def _run(scn, log: EventLog, stats: Stats):
 
     captured = {"pandas": {n: _cap(pool["pd:" + n], n) for n in scn["tables"]},
                 "polars": {n: _cap(pool["pl:" + n], n) for n in scn["tables"]}}
+    # frames the descriptions captured (descr() keeps d.head(7), a separate object, for tables of more than 7 rows):
+    # evaluation reads them too, so the F6 guard below watches them as well
+    heads = {}
+    for be in ("pandas", "polars"):
+        for n, dsc in captured[be].items():
+            if dsc is not None and getattr(dsc, "head", None) is not None:
+                heads[be + ":" + n] = dsc.head
+    head_snaps = {k: snapshot(v) for k, v in heads.items()}
     plan = AbortPlan()
     plan.enabled = False
     sim_pd = make_sim_pandas_model(plan)
@@ -199,6 +207,46 @@ def _run(scn, log: EventLog, stats: Stats):
                 built[key] = ex
         return built[key]
 
+    determinate: Dict[Tuple[int, str], bool] = {}
+
+    def is_determinate(pi: int, backend: str) -> bool:
+        """A pipeline with an ordered window or an order_rows(limit) over an ordering that is not total (ties, nulls)
+        has no single relational result - which rows survive is the engine's free choice, and Polars does vary it
+        from call to call. Such a pipeline is still evaluated (I1 applies) but its results are neither compared
+        (I2) nor logged. Judged per backend on that backend's own prefix results, over fresh copies of the inputs."""
+        key = (pi, backend)
+        if key in determinate:
+            return determinate[key]
+        from sim.props.c18 import _total, ordered_rows
+
+        pipe = scn["pipes"][pi]
+        ok = True
+        try:
+            if backend == "pandas":
+                fresh = {n: W.to_pandas(scn["tables"][n]) for n in W.pipeline_tables(pipe)}
+                ev = lambda o: o.eval(fresh)  # noqa: E731
+            else:
+                fresh = {n: W.to_polars(scn["tables"][n]) for n in W.pipeline_tables(pipe)}
+                ev = lambda o: o.eval(fresh, data_model=real_pl)  # noqa: E731
+            for upto in range(1, len(pipe["steps"]) + 1):
+                need = W.step_needs_total_order(pipe["steps"][upto - 1])
+                if need is None:
+                    continue
+                prev = W.build_pipeline(pipe, plain, upto=upto - 1)
+                r0 = ev(prev)
+                if type(r0).__name__ == "LazyFrame":
+                    r0 = r0.collect()
+                cols, rows = ordered_rows(r0)
+                if _total(rows, cols, need[0], need[1]) is not None:
+                    ok = False
+                    break
+        except Exception:
+            ok = True  # the pipeline does not evaluate on this backend at all: nothing to compare anyway
+        determinate[key] = ok
+        if not ok:
+            stats.probe("pipeline-without-a-single-result:" + backend)
+        return ok
+
     def check_pool(opname: str, step: int, ctx: str):
         for k, v in pool.items():
             now = snapshot(v)
@@ -224,8 +272,10 @@ def _run(scn, log: EventLog, stats: Stats):
                 # The property promises that *evaluation* leaves the inputs alone; it does not promise that a result
                 # shares no memory with an input. (pandas 3.0.5: the result of pd.merge(how="right") written through
                 # .iat changes the right input - reproduced with plain pandas.) If the client's own write reached an
-                # input, the inputs are no longer "the same inputs": stop the run here, judging nothing further.
-                if any(snapshot(v) != snaps[k] for k, v in pool.items()):
+                # input - a pool frame or the head(7) copy a description holds - the inputs are no longer "the same
+                # inputs": stop the run here, judging nothing further.
+                if any(snapshot(v) != snaps[k] for k, v in pool.items()) or \
+                        any(snapshot(v) != head_snaps[k] for k, v in heads.items()):
                     stats.probe("own-result-write-reached-an-input")
                     return
                 continue
@@ -331,6 +381,9 @@ def _run(scn, log: EventLog, stats: Stats):
                 if res is v:
                     raise Violation((PROP, backend, style, "returned-callers-object"), k, step)
             results[op["id"]] = res
+            if not is_determinate(pi, backend):
+                log.emit(backend, "result-not-determined-by-the-pipeline", None)
+                continue
             cols = [str(c) for c in res.columns]
             canon = canon_table(res)
             log.emit(backend, "result", {"cols": sorted(cols), "canon": canon})
